@@ -23,7 +23,7 @@ import (
 
 func init() {
 	checkers["C05"] = checker{
-		rule: "contents (empty, 1 byte .. tier bound), content types (data, SpcIndirectDataContent, arbitrary OIDs incl. large arcs), RSA 2048/3072/4096 keys, certificates with short / long / multi-RDN issuers and issuers with UTF8String values (as OpenSSL writes them) and serials of 1..20 bytes incl. high-bit and leading-zero patterns; a recording crypto.Signer captures the digest the library asks to sign; the output is compared byte for byte with the Coq model sign_pkcs7 (R_C05 extracted, signing time read back and bracketed), re-parsed and verified by the library itself, and verified -- with the right content accepted and another content rejected -- by an RFC 2315 verifier on encoding/asn1+crypto/rsa, by go.mozilla.org/pkcs7 and, for data content, by `openssl smime -verify`; every case is non-trivial, distinct by hash of (certificate, OID, content)",
+		rule: "contents (empty, 1 byte .. tier bound, and contents that are themselves DER elements: one SEQUENCE, two, an OCTET STRING), content types (data, SpcIndirectDataContent, arbitrary OIDs incl. large arcs), RSA 2048/3072/4096 keys, certificates with short / long / multi-RDN issuers and issuers with UTF8String values (as OpenSSL writes them), self-signed and CA-issued (issuer differs from subject) and serials of 1..20 bytes incl. high-bit and leading-zero patterns; a recording crypto.Signer captures the digest the library asks to sign; the output is compared byte for byte with the Coq model sign_pkcs7 (R_C05 extracted, signing time read back and bracketed), re-parsed and verified by the library itself, and verified -- with the right content accepted and another content rejected -- by an RFC 2315 verifier on encoding/asn1+crypto/rsa, by go.mozilla.org/pkcs7 and, for data content, by `openssl smime -verify`; every case is non-trivial, distinct by hash of (certificate, OID, content)",
 		run:  runC05,
 	}
 }
@@ -113,13 +113,29 @@ func runC05(c *Ctx) {
 			// an issuer as OpenSSL encodes it: UTF8String values
 			cert = mintCertRawName(key, utf8Name(fmt.Sprintf("utf8 signer %d", rng.Intn(1000)), "Verif Org"), genSerial(rng))
 		}
+		if rng.Intn(5) == 0 {
+			// a certificate issued by a CA: issuer and subject differ
+			cert = mintLeaf(key, genIssuer(rng), pkix.Name{CommonName: fmt.Sprintf("leaf %d", rng.Intn(1000))}, genSerial(rng))
+		}
 		oid, oidClass := genOID(rng)
 		var content []byte
-		switch rng.Intn(6) {
+		switch rng.Intn(7) {
 		case 0:
 			content = []byte{}
 		case 1:
 			content = []byte{byte(rng.Intn(256))}
+		case 3:
+			// content that is itself DER: one complete SEQUENCE, or two, or an OCTET STRING
+			inner := randBytes(rng, rng.Intn(60))
+			one := append([]byte{0x30, byte(len(inner))}, inner...)
+			switch rng.Intn(3) {
+			case 0:
+				content = one
+			case 1:
+				content = append(append([]byte{}, one...), 0x30, 0x00)
+			default:
+				content = append([]byte{0x04, byte(len(inner))}, inner...)
+			}
 		case 2:
 			content = randBytes(rng, rng.Intn(maxContent))
 		default:
